@@ -181,8 +181,7 @@ def program_case(ctx, qp, rng, idx, workdir):
             except Exception as e:  # noqa: BLE001
                 ctx.ev("capture.autograph")
                 mech = f"autograph-raise:{type(e).__name__}"
-                if type(e).__name__ == "AutoGraphError" and has_static_empty_for(prog["stmts"]) and \
-                        ("iteration over a 0-d array" in str(e) or "'NoneType' object is not iterable" in str(e) or "TracerIntegerConversionError" in str(e)):
+                if type(e).__name__ == "AutoGraphError" and has_static_empty_for(prog["stmts"]) and "AutoGraph converted for loop failed" in str(e):
                     mech = "autograph-for-loop-start-equals-stop"
                 ctx.violation("capture.autograph", f"autograph capture raised {type(e).__name__}: {str(e)[:300]}", case=desc, mech=mech)
                 tc = None
